@@ -274,7 +274,7 @@ def expr_cases(rng, tier):
 
 def cases(rng, tier):
     yield from expr_cases(rng, tier)
-    for _ in range(600 if tier == "quick" else 8000):
+    for _ in range(400 if tier == "quick" else 8000):
         yield g_case(rng)
 
 
